@@ -21,7 +21,7 @@ def initScalar (w : Nat) (s : Bool) : RL :=
 
 def insertLo (x : Int × Int) : RL → RL
   | [] => [x]
-  | y :: ys => if x.1 < y.1 then x :: y :: ys else y :: insertLo x ys
+  | y :: ys => if x.1 ≤ y.1 then x :: y :: ys else y :: insertLo x ys
 
 /-- stable sort by lower bound (`range_l.sort(key=lambda e: e[0])`) -/
 def sortLo (l : RL) : RL := l.foldr insertLo []
